@@ -81,6 +81,8 @@ struct SchedWriter {
     /// at most this many bytes per write call
     per_call: usize,
     failed: bool,
+    /// never accept more than this in total (runaway producer)
+    limit: usize,
 }
 
 /// A writer never accepts more than this: an implementation that keeps
@@ -89,7 +91,7 @@ const WRITE_LIMIT: usize = 1 << 14;
 
 impl Write for SchedWriter {
     fn write(&mut self, b: &[u8]) -> io::Result<usize> {
-        if self.out.len() > WRITE_LIMIT {
+        if self.out.len() > self.limit.max(WRITE_LIMIT) {
             return Err(io::Error::new(io::ErrorKind::Other, "HARNESS write limit: runaway output"));
         }
         if self.out.len() >= self.accept {
@@ -157,6 +159,15 @@ pub fn families(thorough: bool) -> Vec<Pats> {
 
 const KINDS: [AhoCorasickKind; 3] = [AhoCorasickKind::NoncontiguousNFA, AhoCorasickKind::ContiguousNFA, AhoCorasickKind::DFA];
 
+/// Printable rendering of a stream, shortened in the middle when long.
+fn shows(b: &[u8]) -> String {
+    if b.len() <= 120 {
+        json::show(b)
+    } else {
+        format!("{}...({} bytes)...{}", json::show(&b[..40]), b.len(), json::show(&b[b.len() - 40..]))
+    }
+}
+
 fn kind_name(k: AhoCorasickKind) -> &'static str {
     match k {
         AhoCorasickKind::NoncontiguousNFA => "nnfa",
@@ -203,7 +214,7 @@ impl<'a> Item<'a> {
             .set("kind", J::s(kind_name(self.kind)))
             .set("capacity", J::i(self.cap as i64))
             .set("stream", J::s(json::hex(stream)))
-            .set("stream_shown", J::s(json::show(stream)))
+            .set("stream_shown", J::s(shows(stream)))
             .set("schedule", J::Arr(sched.iter().map(|&x| J::i(x as i64)).collect()))
     }
     fn viol(&self, rep: &Report, what: &str, case: J, detail: String) {
@@ -218,7 +229,11 @@ impl<'a> Item<'a> {
 
     /// One stream search under a schedule. Returns the execution log.
     fn run_find(&self, rep: &Report, st: &mut Stats, stream: &[u8], sched: &[usize], exp: &[M]) -> Exec {
-        aho_corasick::verif::set_stream_buffer_capacity(Some(self.cap));
+        self.run_find_cap(rep, st, stream, sched, exp, true)
+    }
+
+    fn run_find_cap(&self, rep: &Report, st: &mut Stats, stream: &[u8], sched: &[usize], exp: &[M], hook: bool) -> Exec {
+        aho_corasick::verif::set_stream_buffer_capacity(if hook { Some(self.cap) } else { None });
         aho_corasick::verif::reset_counters();
         let mut rdr = SchedReader::new(stream, sched, None);
         let r = catch_unwind(AssertUnwindSafe(|| {
@@ -248,10 +263,10 @@ impl<'a> Item<'a> {
                 if msg.starts_with("HARNESS") {
                     rep.machinery(msg);
                 } else {
-                    self.viol(rep, "stream-find-panic", self.case("find", stream, &sched_full), format!("panic on stream \"{}\" schedule {:?}: {}", json::show(stream), sched_full, msg));
+                    self.viol(rep, "stream-find-panic", self.case("find", stream, &sched_full), format!("panic on stream \"{}\" schedule {:?}: {}", shows(stream), sched_full, msg));
                 }
             }
-            Ok(Err(e)) => self.viol(rep, "stream-find-error", self.case("find", stream, &sched_full), format!("stream \"{}\" schedule {:?}: {}", json::show(stream), sched_full, e)),
+            Ok(Err(e)) => self.viol(rep, "stream-find-error", self.case("find", stream, &sched_full), format!("stream \"{}\" schedule {:?}: {}", shows(stream), sched_full, e)),
             Ok(Ok(got)) => {
                 let gv: Vec<M> = got.iter().filter_map(|x| x.clone().ok()).collect();
                 let bad_err = got.iter().any(|x| x.is_err());
@@ -260,17 +275,17 @@ impl<'a> Item<'a> {
                         rep,
                         "stream-find-mismatch",
                         self.case("find", stream, &sched_full),
-                        format!("stream \"{}\" read sizes {:?}: got {:?}, in-memory find_iter {:?}", json::show(stream), sched_full, got, exp),
+                        format!("stream \"{}\" read sizes {:?}: got {:?}, in-memory find_iter {:?}", shows(stream), sched_full, got, exp),
                     );
                 }
                 if !rdr.eof_reported {
-                    self.viol(rep, "stream-early-eof", self.case("find", stream, &sched_full), format!("stream \"{}\" read sizes {:?}: iterator ended before the reader reported end of stream", json::show(stream), sched_full));
+                    self.viol(rep, "stream-early-eof", self.case("find", stream, &sched_full), format!("stream \"{}\" read sizes {:?}: iterator ended before the reader reported end of stream", shows(stream), sched_full));
                 }
                 if rdr.empty_buf_call {
-                    self.viol(rep, "stream-empty-read-buffer", self.case("find", stream, &sched_full), format!("stream \"{}\" read sizes {:?}: reader was handed an empty buffer (a full buffer would be mistaken for end of stream)", json::show(stream), sched_full));
+                    self.viol(rep, "stream-empty-read-buffer", self.case("find", stream, &sched_full), format!("stream \"{}\" read sizes {:?}: reader was handed an empty buffer (a full buffer would be mistaken for end of stream)", shows(stream), sched_full));
                 }
                 if c.non_monotone != 0 || c.fail_excess != 0 {
-                    self.viol(rep, "stream-work", self.case("find", stream, &sched_full), format!("stream \"{}\" read sizes {:?}: work counters {:?}", json::show(stream), sched_full, c));
+                    self.viol(rep, "stream-work", self.case("find", stream, &sched_full), format!("stream \"{}\" read sizes {:?}: work counters {:?}", shows(stream), sched_full, c));
                 }
                 for &(_, s, e) in exp {
                     if ex.cuts.iter().any(|&cut| s < cut && cut < e) {
@@ -284,14 +299,20 @@ impl<'a> Item<'a> {
     }
 
     fn run_replace(&self, rep: &Report, st: &mut Stats, stream: &[u8], sched: &[usize], exp_matches: &[M]) -> Exec {
-        aho_corasick::verif::set_stream_buffer_capacity(Some(self.cap));
+        self.run_replace_cap(rep, st, stream, sched, exp_matches, true)
+    }
+
+    fn run_replace_cap(&self, rep: &Report, st: &mut Stats, stream: &[u8], sched: &[usize], exp_matches: &[M], hook: bool) -> Exec {
+        aho_corasick::verif::set_stream_buffer_capacity(if hook { Some(self.cap) } else { None });
         let mut ex = Exec::default();
-        for (ri, reptab) in self.reps.iter().enumerate() {
+        // the default-capacity sweep (64 KiB streams) uses one replacement table
+        let ntab = if hook { self.reps.len() } else { 1 };
+        for (ri, reptab) in self.reps.iter().enumerate().take(ntab) {
             let exp_out = self.spec.splice(stream, exp_matches, reptab);
             for per_call in [usize::MAX, 1, 2] {
                 // table variant
                 let mut rdr = SchedReader::new(stream, sched, None);
-                let mut w = SchedWriter { out: vec![], accept: usize::MAX, per_call, failed: false };
+                let mut w = SchedWriter { out: vec![], accept: usize::MAX, per_call, failed: false, limit: 8 * stream.len() + 64 };
                 let r = catch_unwind(AssertUnwindSafe(|| self.ac.try_stream_replace_all(&mut rdr, &mut w, reptab)));
                 st.add("executions", 1);
                 let sched_full: Vec<usize> = rdr.log.iter().map(|x| x.1).collect();
@@ -302,10 +323,10 @@ impl<'a> Item<'a> {
                         if msg.starts_with("HARNESS") {
                             rep.machinery(msg);
                         } else {
-                            self.viol(rep, "stream-replace-panic", case(), format!("panic on stream \"{}\" schedule {:?}: {}", json::show(stream), sched_full, msg));
+                            self.viol(rep, "stream-replace-panic", case(), format!("panic on stream \"{}\" schedule {:?}: {}", shows(stream), sched_full, msg));
                         }
                     }
-                    Ok(Err(e)) => self.viol(rep, "stream-replace-error", case(), format!("stream \"{}\" schedule {:?}: unexpected error {}", json::show(stream), sched_full, e)),
+                    Ok(Err(e)) => self.viol(rep, "stream-replace-error", case(), format!("stream \"{}\" schedule {:?}: unexpected error {}", shows(stream), sched_full, e)),
                     Ok(Ok(())) => {
                         if w.out != exp_out {
                             self.viol(
@@ -314,7 +335,7 @@ impl<'a> Item<'a> {
                                 case(),
                                 format!(
                                     "stream \"{}\" read sizes {:?} write chunk {}: wrote \"{}\", in-memory replace_all gives \"{}\"",
-                                    json::show(stream), sched_full, per_call.min(99), json::show(&w.out), json::show(&exp_out)
+                                    shows(stream), sched_full, per_call.min(99), json::show(&w.out), json::show(&exp_out)
                                 ),
                             );
                         }
@@ -326,7 +347,7 @@ impl<'a> Item<'a> {
             }
             // closure variant: handed exactly the matched bytes and absolute offsets
             let mut rdr = SchedReader::new(stream, sched, None);
-            let mut w = SchedWriter { out: vec![], accept: usize::MAX, per_call: usize::MAX, failed: false };
+            let mut w = SchedWriter { out: vec![], accept: usize::MAX, per_call: usize::MAX, failed: false, limit: 8 * stream.len() + 64 };
             let mut seen: Vec<(M, Vec<u8>)> = vec![];
             let r = catch_unwind(AssertUnwindSafe(|| {
                 self.ac.try_stream_replace_all_with(&mut rdr, &mut w, |m, bytes, wtr| {
@@ -343,10 +364,10 @@ impl<'a> Item<'a> {
                     if msg.starts_with("HARNESS") {
                         rep.machinery(msg);
                     } else {
-                        self.viol(rep, "stream-replace-panic", case(), format!("panic (closure variant) on stream \"{}\" schedule {:?}: {}", json::show(stream), sched_full, msg));
+                        self.viol(rep, "stream-replace-panic", case(), format!("panic (closure variant) on stream \"{}\" schedule {:?}: {}", shows(stream), sched_full, msg));
                     }
                 }
-                Ok(Err(e)) => self.viol(rep, "stream-replace-error", case(), format!("closure variant, stream \"{}\": unexpected error {}", json::show(stream), e)),
+                Ok(Err(e)) => self.viol(rep, "stream-replace-error", case(), format!("closure variant, stream \"{}\": unexpected error {}", shows(stream), e)),
                 Ok(Ok(())) => {
                     let ms: Vec<M> = seen.iter().map(|x| x.0).collect();
                     let bytes_ok = seen.iter().all(|(m, bts)| m.2 <= stream.len() && m.1 <= m.2 && &stream[m.1..m.2] == &bts[..]);
@@ -357,7 +378,7 @@ impl<'a> Item<'a> {
                             case(),
                             format!(
                                 "closure variant, stream \"{}\" read sizes {:?}: closure saw {:?}, expected matches {:?}; wrote \"{}\", expected \"{}\"",
-                                json::show(stream), sched_full, seen.iter().map(|(m, bts)| (m, json::show(bts))).collect::<Vec<_>>(), exp_matches, json::show(&w.out), json::show(&exp_out)
+                                shows(stream), sched_full, seen.iter().map(|(m, bts)| (m, json::show(bts))).collect::<Vec<_>>(), exp_matches, json::show(&w.out), json::show(&exp_out)
                             ),
                         );
                     }
@@ -397,7 +418,7 @@ impl<'a> Item<'a> {
                     if msg.starts_with("HARNESS") {
                         rep.machinery(msg);
                     } else {
-                        self.viol(rep, "fault-panic", case(), format!("panic with read fault at call {} on stream \"{}\" schedule {:?}: {}", k, json::show(stream), sched_full, msg));
+                        self.viol(rep, "fault-panic", case(), format!("panic with read fault at call {} on stream \"{}\" schedule {:?}: {}", k, shows(stream), sched_full, msg));
                     }
                 }
                 Ok(Err(e)) => self.viol(rep, "fault-build", case(), e),
@@ -411,7 +432,7 @@ impl<'a> Item<'a> {
                             case(),
                             format!(
                                 "read fault at call {} on stream \"{}\" read sizes {:?}: iterator yielded {:?}; expected a prefix of {:?} followed by exactly one error",
-                                k, json::show(stream), sched_full, got, exp
+                                k, shows(stream), sched_full, got, exp
                             ),
                         );
                     }
@@ -419,7 +440,7 @@ impl<'a> Item<'a> {
             }
             // reader fault during replacement
             let mut rdr = SchedReader::new(stream, sched_full, Some(k));
-            let mut w = SchedWriter { out: vec![], accept: usize::MAX, per_call: usize::MAX, failed: false };
+            let mut w = SchedWriter { out: vec![], accept: usize::MAX, per_call: usize::MAX, failed: false, limit: 8 * stream.len() + 64 };
             let r = catch_unwind(AssertUnwindSafe(|| self.ac.try_stream_replace_all(&mut rdr, &mut w, reptab)));
             st.add("executions", 1);
             st.add("fault_points", 1);
@@ -434,7 +455,7 @@ impl<'a> Item<'a> {
                             case(),
                             format!(
                                 "read fault at call {} on stream \"{}\" read sizes {:?}: replace returned {:?} after writing \"{}\"; fault-free output is \"{}\"",
-                                k, json::show(stream), sched_full, res.map_err(|e| e.to_string()), json::show(&w.out), json::show(&exp_out)
+                                k, shows(stream), sched_full, res.map_err(|e| e.to_string()), json::show(&w.out), json::show(&exp_out)
                             ),
                         );
                     }
@@ -445,7 +466,7 @@ impl<'a> Item<'a> {
         for k in 0..exp_out.len() {
             for per_call in [usize::MAX, 1] {
                 let mut rdr = SchedReader::new(stream, sched_full, None);
-                let mut w = SchedWriter { out: vec![], accept: k, per_call, failed: false };
+                let mut w = SchedWriter { out: vec![], accept: k, per_call, failed: false, limit: 8 * stream.len() + 64 };
                 let r = catch_unwind(AssertUnwindSafe(|| self.ac.try_stream_replace_all(&mut rdr, &mut w, reptab)));
                 st.add("executions", 1);
                 st.add("fault_points", 1);
@@ -460,7 +481,7 @@ impl<'a> Item<'a> {
                                 case(),
                                 format!(
                                     "writer failing after {} bytes on stream \"{}\" read sizes {:?}: replace returned {:?} having written \"{}\"; fault-free output is \"{}\"",
-                                    k, json::show(stream), sched_full, res.map_err(|e| e.to_string()), json::show(&w.out), json::show(&exp_out)
+                                    k, shows(stream), sched_full, res.map_err(|e| e.to_string()), json::show(&w.out), json::show(&exp_out)
                                 ),
                             );
                         }
@@ -478,7 +499,7 @@ impl<'a> Item<'a> {
         if exp != exp_spec {
             // belongs to C02, but a stream check against a wrong in-memory
             // answer would be meaningless: report it as what it is
-            self.viol(rep, "in-memory-vs-spec", self.case("find", stream, &[]), format!("in-memory find_iter on \"{}\" gives {:?}, SPEC {:?}", json::show(stream), exp, exp_spec));
+            self.viol(rep, "in-memory-vs-spec", self.case("find", stream, &[]), format!("in-memory find_iter on \"{}\" gives {:?}, SPEC {:?}", shows(stream), exp, exp_spec));
         }
         let mut stack: Vec<(Vec<usize>, usize)> = vec![(vec![], 0)];
         let mut schedules = 0u64;
@@ -537,6 +558,88 @@ impl<'a> Item<'a> {
 /// the harness down: the SPEC comparison in `explore` reports it).
 fn mem_find_iter(ac: &AhoCorasick, stream: &[u8]) -> Vec<M> {
     catch_unwind(AssertUnwindSafe(|| ac.find_iter(stream).take(4 * stream.len() + 8).map(mm).collect())).unwrap_or_default()
+}
+
+/// The real default buffer (64 KiB, or 8 x the longest pattern if that is
+/// larger), without hook H1: streams a little longer than the buffer with one
+/// pattern occurrence placed at every offset around the buffer boundary, under
+/// a fixed finite set of read schedules (all maximal reads; a first read that
+/// is short by 1..L+1 bytes; reads of 4093 and 65535 bytes).
+fn default_capacity_sweep(rep: &Report, mode: Mode, fams: &[Pats]) {
+    let mut lists: Vec<Pats> = fams.iter().take(8).cloned().collect();
+    // a pattern longer than 8 KiB: the capacity becomes 8 x its length
+    lists.push(vec![vec![b'q'; 9000], b("ab")]);
+    struct W {
+        l: usize,
+        kind: AhoCorasickKind,
+    }
+    let mut items = vec![];
+    for l in 0..lists.len() {
+        for kind in KINDS {
+            items.push(W { l, kind });
+        }
+    }
+    par_for(rep, items.len(), |i, st| {
+        let w = &items[i];
+        let pats = &lists[w.l];
+        let ac = match AhoCorasick::builder().kind(Some(w.kind)).build(pats) {
+            Ok(a) => a,
+            Err(e) => {
+                rep.machinery(format!("build failed: {}", e));
+                return;
+            }
+        };
+        let spec = Spec::new(pats.clone(), false);
+        let maxlen = pats.iter().map(|p| p.len()).max().unwrap();
+        let cap = (maxlen * 8).max(64 * 1024);
+        let it = Item { pats, kind: w.kind, cap, ac: &ac, spec: &spec, reps: rep_tables(pats.len()) };
+        let bt = universe::bottom(pats);
+        let n = cap + maxlen + 40;
+        for p in pats.iter() {
+            // occurrence of p ending at cap - 2 ..= cap + |p| + 1 (every way of
+            // straddling the boundary; for a very long pattern: the 12 ends
+            // nearest to either extreme)
+            for end in (cap - 2)..=(cap + p.len() + 1) {
+                if end < p.len() || end > n {
+                    continue;
+                }
+                if p.len() > 24 && end > cap + 10 && end + 10 < cap + p.len() {
+                    continue;
+                }
+                let mut stream = vec![bt; n];
+                stream[end - p.len()..end].copy_from_slice(p);
+                // a second occurrence right at the start and one at the very end
+                stream[..p.len()].copy_from_slice(p);
+                let nn = stream.len();
+                stream[nn - p.len()..].copy_from_slice(p);
+                let exp = mem_find_iter_big(&ac, &stream);
+                let mut scheds: Vec<Vec<usize>> = vec![vec![], vec![4093], vec![1, 65535], vec![cap - 1, 1, 1]];
+                for d in 1..=(maxlen.min(6) + 1) {
+                    scheds.push(vec![cap - d]);
+                }
+                if mode == Mode::Replace {
+                    scheds.truncate(5);
+                }
+                for sc in &scheds {
+                    aho_corasick::verif::set_stream_buffer_capacity(None);
+                    st.add("default_capacity_runs", 1);
+                    match mode {
+                        Mode::Find => {
+                            it.run_find_cap(rep, st, &stream, sc, &exp, false);
+                        }
+                        Mode::Replace => {
+                            it.run_replace_cap(rep, st, &stream, sc, &exp, false);
+                        }
+                        Mode::Faults => {}
+                    }
+                }
+            }
+        }
+    });
+}
+
+fn mem_find_iter_big(ac: &AhoCorasick, stream: &[u8]) -> Vec<M> {
+    catch_unwind(AssertUnwindSafe(|| ac.find_iter(stream).take(stream.len() + 8).map(mm).collect())).unwrap_or_default()
 }
 
 fn rep_tables(n: usize) -> Vec<Vec<Vec<u8>>> {
@@ -724,6 +827,7 @@ pub fn run(rep: &Report, mode: Mode) -> i32 {
         }
     });
     aho_corasick::verif::set_stream_buffer_capacity(None);
+    default_capacity_sweep(rep, mode, &fams);
     let execs = rep.get("executions");
     let (level, rule) = match mode {
         Mode::Find => ("model_checking", "choice-prefix DFS over the reader's answers: for every pattern family x automaton kind x roll-buffer capacity (min+1, min+2, min+3, 2min, 8min via hook H1) x every stream over sigma(P)+bottom up to the full-bound length: every sequence of read sizes the free buffer space allows; each execution runs the real try_stream_find_iter to completion and is compared with the same searcher's in-memory find_iter (itself compared with SPEC); beyond the full bound: streams of 28-40 bytes with a bounded number of deviations from the maximal read"),
